@@ -221,14 +221,19 @@ def run(case) -> dict:
     if kind == "wf":
         # how the mapper's bytes travel: in one piece, in PRNG segments with a pause before the last part, or complete and followed
         # at once by a reset of the connection (the mapper closes hard after answering) - the answer is the same
-        how = (seed // 7) % 4
+        how = (seed // 7) % 5
         if how == 1:
             world.default_delivery = {"mode": "rand", "seed": seed & 0xFFFF, "bias": ("small", "header", "geo")[seed % 3]}
         elif how == 2:
             world.default_delivery = {"mode": "cuts", "cuts": {"1": [16 + seed % max(1, len(reply))]}, "gaps": [[1, 1, (0.01, 0.5, 3.0)[seed % 3]]]}
         elif how == 3:
             world.default_delivery = {"rst_at": [1, 24 + len(reply)]}
-        label += f" delivery={('whole', 'segments', 'pause', 'reset-after-reply')[how]}"
+        elif how == 4:
+            # three or more segments, and the wall clock steps (NTP correction, VM resume) while the rest of the reply is pending
+            c1 = 1 + seed % 23
+            world.default_delivery = {"mode": "cuts", "cuts": {"1": [c1, c1 + 1 + (seed // 5) % 20]},
+                                      "clock_jumps": [[1, 1 + seed % 2, (61.0, 3600.0, -3600.0, 86400.0 * 400)[(seed // 11) % 4]]]}
+        label += f" delivery={('whole', 'segments', 'pause', 'reset-after-reply', 'clock-step-between-segments')[how]}"
         probes_delivery = how
     vmw = common.VmWatch()
     vmw.__enter__()
@@ -247,7 +252,7 @@ def run(case) -> dict:
     if kind == "wf" and "alloc_hint=len-" in label:
         probes["alloc_hint_short"] = 1
     if kind == "wf":
-        probes["delivery_" + ("whole", "segments", "pause", "reset_after_reply")[probes_delivery]] = 1
+        probes["delivery_" + ("whole", "segments", "pause", "reset_after_reply", "clock_step")[probes_delivery]] = 1
         if "lookup-handle=live" in label:
             probes["live_lookup_handle"] = 1
             if expect is None and status == 0:
@@ -289,7 +294,7 @@ class C18(common.Check):
     rule = ("case = ept_map reply served to the real first hop of _sync_get_key/_async_get_key. Well-formed (reference-encoded): 0..6 towers, 2..7 "
             "floors of known and unknown protocols with payloads 0..11 bytes (every tower-length residue mod 8), TCP floor first / last / "
             "anywhere / absent, status 0 and error codes: the port dialled next (observed at the network seam) must be the TCP port of the first "
-            "tower with a TCP floor; error status or no TCP floor must raise without dialling; the reply's lookup handle is NULL or live (the mapper then answers every further request the same way); the Response PDU's advisory alloc_hint is exact, zero or smaller than the stub; the reply arrives whole, in PRNG segments, after a pause, or complete and followed at once by a connection reset; the hint is exact, "
+            "tower with a TCP floor; error status or no TCP floor must raise without dialling; the reply's lookup handle is NULL or live (the mapper then answers every further request the same way); the Response PDU's advisory alloc_hint is exact, zero or smaller than the stub; the reply arrives whole, in PRNG segments, after a pause, in three segments with a wall-clock step of +61 s .. +400 d / -1 h in between, or complete and followed at once by a connection reset; the hint is exact, "
             "zero or smaller than the stub; sequences of lookups in one process whose answers change; 2..3 caller threads looking the endpoint "
             "up at the same time (sync API, deterministic thread scheduler, segmented replies) while the mapper announces a different port "
             "to each: every announced port must be dialled exactly once. Hostile: many towers with tiny declared lengths whose floor counts "
@@ -301,7 +306,7 @@ class C18(common.Check):
                   "endpoint mapper": "Byzantine scripted peer / reference encoder (ref.rpce)", "network seam": "simulated: the dialled port is an observation",
                   "budgets": "sys.settrace line counter (dpapi_ng frames) and address-space high-water mark"}
     assumptions = ["budgets are affine in the reply length with constants > 20x the maximum observed on well-formed replies"]
-    required_fired = ("port_expected", "must_raise", "kind_hostile", "kind_trunc", "kind_seq", "seq_error_after_success", "hostile_actual", "hostile_floor-count", "hostile_tower-len", "hostile_overlap", "kind_threads", "thread_overlap", "alloc_hint_short", "delivery_segments", "delivery_pause", "delivery_reset_after_reply", "live_lookup_handle", "live_lookup_handle_without_tcp_floor")
+    required_fired = ("port_expected", "must_raise", "kind_hostile", "kind_trunc", "kind_seq", "seq_error_after_success", "hostile_actual", "hostile_floor-count", "hostile_tower-len", "hostile_overlap", "kind_threads", "thread_overlap", "alloc_hint_short", "delivery_segments", "delivery_pause", "delivery_reset_after_reply", "delivery_clock_step", "live_lookup_handle", "live_lookup_handle_without_tcp_floor")
 
     def cases(self, tier, seed):
         rng = prng.stream(seed, "C18")
